@@ -124,9 +124,9 @@ def parseClient (s : String) : Option IP :=
   | [_, h] => hexBytes h
   | _ => none
 
-def showReply (r : Reply) : String :=
+def showReply (q : Query) (r : Reply) : String :=
   if r.kind == .none then "none" else
-  s!"same={boolStr (r.kind == .pass)} rc={r.rcode} ad={boolStr r.ad} aq={r.aq} ede4={boolStr r.ede4} ans={showRRs r.ans} ns={showRRs r.ns} ex={showRRs r.extra}"
+  s!"same={boolStr (r.kind == .pass)} rc={r.rcode} ad={boolStr r.ad} aq={r.aq}{if subQueryCD q r.aq then "cd" else ""} ede4={boolStr r.ede4} ans={showRRs r.ans} ns={showRRs r.ns} ex={showRRs r.extra}"
 
 def showPErr : PErr → String
   | .ok => "ok" | .v4 => "v4" | .len => "len" | .byte8 => "byte8"
@@ -172,7 +172,7 @@ def step (st : State) (w : List String) : State × String :=
       let q : Query := { client := c, internal := internal, rd := rd, cd := cd, qclass := qclass,
                          qtype := qtype, qname := qname, workExhausted := wx && !wire,
                          replay := replay, wire := wire, twoQ := twoQ && !wire }
-      (st, showReply (serve st.cfg q down a))
+      (st, showReply q (serve st.cfg q down a))
     | _, _, _, _, _, _, _ => (st, "bad-op")
   | _ => (st, "bad-op")
 
